@@ -2,29 +2,20 @@ From Coq Require Import List NArith Bool Arith.
 Import ListNotations.
 From PV Require Import Regex Base LexTables NodeModel ParserBase ParserDecl ParserMain Api.
 
-(* outcome of the whole-pipeline model on a text, coordinates erased, token counter dropped *)
-Definition outcome_str (text: str) : str :=
-  match run_parse text (s2l "f.c") with
-  | Ok (ast, _) => s2l "OK|" ++ show_ast (N.to_nat 1000) false ast
-  | Err l m => s2l "E|" ++ show_loc l ++ s2l ": " ++ m
-  | Crash k => s2l "C|" ++ crash_name k
-  | OutOfFuel => s2l "R"
-  end.
-
 (* the else belongs to the nearest unmatched if (C99 6.8.4.1p3) *)
-Example C05_dangling_else :
+Example ex_C05_dangling_else :
   outcome_str (s2l "void f(){ if (a) if (b) x; else y; }") = s2l "OK|(FileAST [(FuncDef (Decl 'f' [] [] [] [] (FuncDecl None (TypeDecl 'f' [] None (IdentifierType ['void']))) None None) None (Compound [(If (ID 'a') (If (ID 'b') (ID 'x') (ID 'y')) None)]))])".
 Proof. vm_compute. reflexivity. Qed.
 (* statements go under the nearest preceding label; consecutive labels stay siblings *)
-Example C05_switch_regroup :
+Example ex_C05_switch_regroup :
   outcome_str (s2l "void f(){ switch(x){ case 1: a; b; case 2: case 3: c; default: d; } }") = s2l "OK|(FileAST [(FuncDef (Decl 'f' [] [] [] [] (FuncDecl None (TypeDecl 'f' [] None (IdentifierType ['void']))) None None) None (Compound [(Switch (ID 'x') (Compound [(Case (Constant 'int' '1') [(ID 'a'),(ID 'b')]),(Case (Constant 'int' '2') []),(Case (Constant 'int' '3') [(ID 'c')]),(Default [(ID 'd')])]))]))])".
 Proof. vm_compute. reflexivity. Qed.
 (* a declaration init lands in a DeclList *)
-Example C05_for_decl :
+Example ex_C05_for_decl :
   outcome_str (s2l "void f(){ for(int i=0;i<3;i++) x; }") = s2l "OK|(FileAST [(FuncDef (Decl 'f' [] [] [] [] (FuncDecl None (TypeDecl 'f' [] None (IdentifierType ['void']))) None None) None (Compound [(For (DeclList [(Decl 'i' [] [] [] [] (TypeDecl 'i' [] None (IdentifierType ['int'])) (Constant 'int' '0') None)]) (BinaryOp '<' (ID 'i') (Constant 'int' '3')) (UnaryOp 'p++' (ID 'i')) (ID 'x'))]))])".
 Proof. vm_compute. reflexivity. Qed.
 (* each pragma once, verbatim, in place; a pragma-prefixed sub-statement is wrapped in a Compound *)
-Example C05_pragma_once :
+Example ex_C05_pragma_once :
   outcome_str (s2l "void f(){
 #pragma p1
  x;
@@ -34,6 +25,6 @@ Example C05_pragma_once :
 }") = s2l "OK|(FileAST [(FuncDef (Decl 'f' [] [] [] [] (FuncDecl None (TypeDecl 'f' [] None (IdentifierType ['void']))) None None) None (Compound [(Pragma 'p1'),(ID 'x'),(If (ID 'a') (Compound [(Pragma 'p2'),(ID 'y')]) None)]))])".
 Proof. vm_compute. reflexivity. Qed.
 (* witness: a static assertion as a sub-statement puts a list into a statement slot *)
-Example C05_static_assert_stmt_refuted :
+Example ex_C05_static_assert_stmt_refuted :
   outcome_str (s2l "void f(){ if (x) _Static_assert(1,""a""); }") = s2l "OK|(FileAST [(FuncDef (Decl 'f' [] [] [] [] (FuncDecl None (TypeDecl 'f' [] None (IdentifierType ['void']))) None None) None (Compound [(If (ID 'x') [(StaticAssert (Constant 'int' '1') (Constant 'string' '""a""'))] None),(EmptyStatement)]))])".
 Proof. vm_compute. reflexivity. Qed.
